@@ -340,7 +340,7 @@ pub fn run_table_case(case: &TableCase, check13: bool, check14: bool) -> Result<
 
 fn entries_strategy(max_keys: usize) -> impl Strategy<Value = Vec<Entry>> {
     let per_key = prop::collection::vec((any::<u32>(), prop::bool::weighted(0.8), prop_oneof![
-        10 => 0u32..40, 10 => 40u32..300, 1 => 4000u32..6000,
+        10 => 0u32..40, 10 => 40u32..300, 2 => 900u32..2500, 1 => 4000u32..6000,
         // lengths at which the length prefix of a block entry grows, and one value of several log-block sizes
         2 => select(vec![127u32, 128, 129, 255, 256, 257, 16_383, 16_384, 16_385])]), 1..6);
     // sequence numbers start at 1, above 2^32, or just below the largest sequence number (2^56 - 1)
@@ -375,7 +375,7 @@ fn walk_strategy() -> impl Strategy<Value = Vec<TCur>> {
 pub fn case_strategy() -> impl Strategy<Value = TableCase> {
     (
         prop_oneof![3 => entries_strategy(12), 2 => entries_strategy(60), 1 => entries_strategy(90)],
-        select(vec![1usize, 16, 64, 256, 700, 4096, 1 << 20]),
+        select(vec![1usize, 16, 64, 256, 700, 4096, 8192, 8192, 16_384, 65_536, 1 << 20]),
         any::<bool>(),
         walk_strategy(),
     )
